@@ -23,3 +23,7 @@ reg("C09", weave=["events/ratelimiting"],
     stub=["consumer of the event channel and Add clients are harness goroutines"],
     assumptions=["settled mode compares against an executable model of the statement with the scheduler's delay injection off; ties between an Add and a window end may resolve either way",
                  "racy mode: lateness bound MaxDelay + 6 ms injected-delay budget + 1 ms"])
+reg("C20", weave=["context"],
+    quick_runs=480000, thorough_runs=10000000,
+    real=["context/pool.go"], stub=["member contexts are std context.WithCancel / Background created by the harness"],
+    assumptions=["a context counts as a certain member only if, at the instant its Add returned, the pool was observed live and a certain member was still live (the statement's own wording); Adds racing the pool's end are treated as possibly-members (no obligation either way)"])
